@@ -83,7 +83,7 @@ def rule_literal_path(prog, roles, em):
     first = _rule_literal_path(prog, roles, em, roles.token_bodies())
     if not any(o.status == 'violated' for o in first):
         return first
-    second = _rule_literal_path(prog, roles, em, roles.token_bodies(views=True))
+    second = _rule_literal_path(prog, roles, em, roles.token_bodies(views='ho'))
     if not any(o.status == 'violated' for o in second):
         for o in second:
             o.what += ' [read with combinator closures inlined]'
@@ -143,12 +143,20 @@ def _rule_literal_path(prog, roles, em, tbodies):
     n3 = 0
     for bid in sorted(em.reach):
         b = prog.by_id[bid]
-        if not any('parser::Literal<' in l['ty'] for l in b.locals[:b.arg_count + 1]):
+        lit_param = any('parser::Literal<' in l['ty'] for l in b.locals[:b.arg_count + 1])
+        node_param = any('parser::ExprAST<' in l['ty'] for l in b.locals[:b.arg_count + 1])
+        if not lit_param and not node_param:
             continue
+        def from_literal(o):
+            # in a body that receives the whole node (literal evaluation inlined into the dispatch), only what is
+            # read out of the node's Literal payload is a literal evaluation
+            return lit_param or (o is not None and o.kind == 'param' and ('dc', 'Literal') in o.proj)
         for c in b.live_calls:
             if c.callee in ('std::convert::From::from', 'std::convert::Into::into') and c.fn and DEC in ' '.join(c.fn['args']) and 'value::Value' in ' '.join(c.fn['args']):
-                n3 += 1
                 o = single_origin(trace_operand(b, c.args[0], through_calls=set(TRANSPARENT_CALLS) | {'std::clone::Clone::clone'}))
+                if not from_literal(o):
+                    continue
+                n3 += 1
                 key = 'LITPATH|eval|%s' % b.name
                 if o is not None and o.kind == 'param' and ('dc', 'Number') in o.proj:
                     obs.append(ok('LITPATH', key, 'the literal\'s Decimal is wrapped into Value::Number by From<Decimal> (identity wrap)', c.where()))
@@ -156,8 +164,10 @@ def _rule_literal_path(prog, roles, em, tbodies):
                     obs.append(bad('LITPATH', key, 'the evaluated number literal is not the literal\'s own Decimal (%r)' % o, c.where(), body=b.name))
         for bb, i, pl, rv in b.assigns():
             if rv['k'] == 'agg' and rv.get('adt') == 'value::Value' and rv.get('variant') == 'Number':
-                n3 += 1
                 o = single_origin(trace_operand(b, rv['ops'][0], through_calls=set(TRANSPARENT_CALLS) | {'std::clone::Clone::clone'}))
+                if not from_literal(o):
+                    continue
+                n3 += 1
                 key = 'LITPATH|eval|%s' % b.name
                 if o is not None and o.kind == 'param' and ('dc', 'Number') in o.proj:
                     obs.append(ok('LITPATH', key, 'Value::Number carries the literal\'s Decimal unchanged', b.where(bb)))
